@@ -405,6 +405,11 @@ FUNCS = [
     fn("liste_zurueck", [("n", TZ, False)], TL(TT), [var("r", TL(TT), lit(L(TT, [])), False),
         {"k": "for", "v": "i", "t": TZ, "from": zl(1), "to": ident("n"), "step": NONE, "body": [setv(lvid("r"), bin_("cat", ident("r"), as_text(ident("i"))))]}, RET(ident("r"))]),
 ]
+# identity functions: the result of returning an unmodified by-value parameter is a value of its own
+FUNCS += [fn("gib_text", [("t", TT, False)], TT, [RET(ident("t"))]), fn("gib_liste", [("l", TL(TZ), False)], TL(TZ), [RET(ident("l"))]),
+          fn("gib_textliste", [("l", TL(TT), False)], TL(TT), [RET(ident("l"))]), fn("gib_paar", [("p", TS("Paar"), False)], TS("Paar"), [RET(ident("p"))]),
+          fn("gib_kiste", [("k", TS("Kiste"), False)], TS("Kiste"), [RET(ident("k"))]),
+          fn("gib_text_bedingt", [("t", TT, False), ("w", TW, False)], TT, [if_(ident("w"), [RET(ident("t"))]), RET(lit(T("anders")))])]
 # the same by-value writers, declared first and defined later ("wird später definiert")
 FUNCS += [dict(fn("kopie_spaeter_liste", [("l", TL(TZ), False), ("v", TZ, False)], TZ, [setv(idx_lv(lvid("l"), zl(1)), ident("v")), RET(bin_("idx", ident("l"), zl(1)))]), forward=True),
           dict(fn("kopie_spaeter_text", [("t", TT, False)], TT, [setv(lvid("t"), lit(T("im Aufgerufenen neu zugewiesen"))), RET(ident("t"))]), forward=True),
@@ -636,6 +641,13 @@ def copy_cases(tier, rng):
             # assignment copy
             su = [var("a", t, init, False), var("b", t, {"k": "std", "t": t}, False), setv(lvid("b"), ident("a"))] + mut("b")
             add("copy:assign:%s:%d" % (kn, mi), su, *pair_expr("a", "b", t))
+            # the callee returns its by-value parameter unchanged: caller's variable and result are two values
+            idf = {"LZ": ("gib_liste", "l"), "LT": ("gib_textliste", "l"), "T": ("gib_text", "t"), "P": ("gib_paar", "p"), "K": ("gib_kiste", "k")}[kn]
+            for who in ("a", "b"):
+                su = [var("a", t, init, False), var("b", t, call(idf[0], [(idf[1], ident("a"))]), False)] + mut(who)
+                add("copy:return-param:%s:%d:mut-%s" % (kn, mi, who), su, *pair_expr("a", "b", t))
+            su = [var("a", t, init, False), var("b", t, {"k": "std", "t": t}, False), setv(lvid("b"), call(idf[0], [(idf[1], ident("a"))]))] + mut("b")
+            add("copy:return-param-assign:%s:%d" % (kn, mi), su, *pair_expr("a", "b", t))
             # list element copy (store into list, mutate the source)
             su = [var("a", t, init, False), var("l", TL(t) if "l" not in t else None, None, False)] if False else None
     # value argument: the callee mutates its copy (all levels; at -O2 the copy may be elided only if never written)
@@ -665,6 +677,7 @@ def copy_cases(tier, rng):
     add("global:set", [{"k": "expr", "e": call("setze_global", [("v", zl(11))])}], ident("glob_z"), TZ)
     # return value, Variable boxing, slices, concatenation operands are copies
     add("copy:return", [var("a", TT, lit(T("r")), False), var("b", TT, call("text_zurueck", [("t", ident("a"))]), False), setv(idx_lv(lvid("b"), zl(1)), lit(C("R")))], *pair_expr("a", "b", TT))
+    add("copy:return-param:conditional", [var("a", TT, TX, False), var("b", TT, call("gib_text_bedingt", [("t", ident("a")), ("w", lit(W(True)))]), False), setv(idx_lv(lvid("b"), zl(1)), lit(C("R")))], *pair_expr("a", "b", TT))
     add("copy:box", [var("a", TL(TZ), LZ, False), var("v", TV, cast(TV, ident("a")), False), setv(idx_lv(lvid("a"), zl(1)), zl(9)), var("b", TL(TZ), cast(TL(TZ), ident("v")), False)], *pair_expr("a", "b", TL(TZ)))
     add("copy:slice", [var("a", TL(TZ), LZ, False), var("b", TL(TZ), ter("slice", ident("a"), zl(1), zl(2)), False), setv(idx_lv(lvid("b"), zl(1)), zl(9))], *pair_expr("a", "b", TL(TZ)))
     add("copy:concat", [var("a", TT, TX, False), var("b", TT, bin_("cat", ident("a"), lit(T(""))), False), setv(idx_lv(lvid("b"), zl(1)), lit(C("O")))], *pair_expr("a", "b", TT))
